@@ -558,9 +558,93 @@ fn gen_case(r: &mut Rng, idx: u64) -> Vec<String> {
         _ => 10,
     };
     out.push(format!("case\t{}\t{}\t{}", idx, cap, engine));
-    let nfn = r.range(1, 6);
+    // one case in five is a scripted pattern (the ones the properties point at) followed by random operations
+    let scripted = if r.chance(1, 5) { Some(r.below(7)) } else { None };
+    let mut keyed: HashMap<u64, u64> = HashMap::new();
+    let mut sing: HashMap<u64, u64> = HashMap::new();
+    let nfn;
+    let hot: Vec<(u64, u64)>;
+    if let Some(which) = scripted {
+        let a = r.below(3) as u64; // the key / argument the pattern works on
+        let b = (a + 1) % 3;
+        let v = r.below(3) as u64;
+        let kind = |r: &mut Rng| if r.chance(2, 3) { 0 } else { 1 };
+        let (progs, ops, hots): (Vec<String>, Vec<String>, Vec<(u64, u64)>) = match which {
+            // absent singleton, then first write (F1); through a chain half of the time
+            0 => {
+                let i = r.below(2);
+                let chain = r.chance(1, 2);
+                let p = if chain { vec![format!("{}:c1 p", kind(r)), format!("2:+ g{} l1", i)] } else { vec![format!("2:+ g{} l1", i)] };
+                (p, vec![format!("call\t0\t{}", a), format!("sset\t{}\t{}", i, v), format!("call\t0\t{}", a)], vec![(0, a)])
+            }
+            // absent tracked counter, then first insert (F1 on tracked fields)
+            1 => {
+                let m = r.below(2);
+                (vec![format!("2:t{}", m)], vec![format!("call\t0\t0"), format!("tins\t{}\t{}", m, v), format!("call\t0\t0")], vec![(0, 0)])
+            }
+            // remove a singleton, re-run the inner reader alone, then the outer (F2)
+            2 => {
+                let i = r.below(2);
+                (vec![format!("{}:c1 p", kind(r)), format!("2:+ g{} l2", i)],
+                 vec![format!("sset\t{}\t{}", i, v), format!("call\t0\t{}", a), format!("srem\t{}", i), format!("call\t1\t0"), format!("call\t0\t{}", a)],
+                 vec![(0, a), (1, 0)])
+            }
+            // equal-value write around an unrelated change (F3)
+            3 => {
+                let mut o = vec![format!("set\t{}\t{}", a, v), format!("set\t{}\t0", b), format!("call\t0\t{}", a)];
+                if r.chance(1, 2) {
+                    o.push(format!("set\t{}\t1", b));
+                    o.push(format!("set\t{}\t{}", a, v));
+                } else {
+                    o.push(format!("set\t{}\t{}", a, v));
+                    o.push(format!("set\t{}\t1", b));
+                }
+                o.push(format!("call\t0\t{}", a));
+                keyed.insert(a, v);
+                keyed.insert(b, 1);
+                (vec![format!("{}:s p", kind(r))], o, vec![(0, a)])
+            }
+            // nodes verified on the way become dependencies of the caller (F22)
+            4 => {
+                let p = vec![format!("{}:c1 p", kind(r)), format!("{}:= + c2 p c3 p l9", kind(r)), format!("{}:s p", kind(r)), "2:s l2".to_string()];
+                let a = r.below(2) as u64;
+                let o = vec![format!("set\t{}\t{}", a, v), "set\t2\t1".to_string(), "set\t3\t0".to_string(), format!("call\t1\t{}", a), "set\t3\t1".to_string(),
+                             format!("call\t0\t{}", a), format!("set\t{}\t{}", a, v + 1), format!("call\t0\t{}", a)];
+                keyed.insert(a, v + 1);
+                keyed.insert(2, 1);
+                (p, o, vec![(0, a), (1, a)])
+            }
+            // a re-verified top-level query is pushed out of the LRU by its own dependencies
+            5 => {
+                let depth = r.range(1, 3);
+                let mut p = vec![];
+                for d in 0..depth {
+                    p.push(format!("{}:c{} p", kind(r), d + 1));
+                }
+                p.push(format!("{}:s p", kind(r)));
+                let o = vec![format!("set\t{}\t{}", a, v), format!("call\t0\t{}", a), format!("set\t{}\t{}", b, v + 1), format!("call\t0\t{}", a),
+                             "gc".to_string(), format!("call\t0\t{}", a)];
+                keyed.insert(a, v);
+                keyed.insert(b, v + 1);
+                (p, o, vec![(0, a)])
+            }
+            // chain of depth 3 with a value-preserving middle (backdating)
+            _ => {
+                let p = vec![format!("{}:+ c1 p l1", kind(r)), format!("{}:h c2 p", kind(r)), format!("{}:s p", kind(r))];
+                let o = vec![format!("set\t{}\t4", a), format!("call\t0\t{}", a), format!("set\t{}\t5", a), format!("call\t0\t{}", a),
+                             format!("set\t{}\t{}", a, 6 + v), format!("call\t0\t{}", a)];
+                keyed.insert(a, 6 + v);
+                (p, o, vec![(0, a)])
+            }
+        };
+        nfn = progs.len();
+        out.push(format!("prog\t{}\t{}", nfn, progs.join("\t")));
+        out.extend(ops);
+        hot = hots;
+    } else {
+    nfn = r.range(1, 6);
     let cyclic = r.chance(1, 25);
-    let mut g = G { r, nfn, cyclic };
+    let mut g = G { r: &mut *r, nfn, cyclic };
     let mut prog = vec![];
     for i in 0..nfn {
         let body = g.body(i);
@@ -578,10 +662,6 @@ fn gen_case(r: &mut Rng, idx: u64) -> Vec<String> {
         line.push_str(&format!("\t{}:{}", d.kind, toks.join(" ")));
     }
     out.push(line);
-    let r = g.r;
-    // shadow of the sources, to produce equal-value writes on purpose
-    let mut keyed: HashMap<u64, u64> = HashMap::new();
-    let mut sing: HashMap<u64, u64> = HashMap::new();
     if r.chance(7, 10) {
         for k in 0..3u64 {
             let v = r.below(3) as u64;
@@ -598,13 +678,14 @@ fn gen_case(r: &mut Rng, idx: u64) -> Vec<String> {
     }
     // a few hot (f, a) pairs: most calls repeat them
     let nhot = r.range(1, 3);
-    let hot: Vec<(u64, u64)> = (0..nhot).map(|_| (r.below(nfn.min(3)) as u64, r.below(3) as u64)).collect();
+    hot = (0..nhot).map(|_| (r.below(nfn.min(3)) as u64, r.below(3) as u64)).collect();
+    }
     let (w_eq, w_gc, w_ret) = match engine.as_str() {
         "c02" => (50, 4, 2),
         "c03" => (25, 16, 8),
         _ => (30, 7, 3),
     };
-    let len = r.range(3, 36);
+    let len = if scripted.is_some() { r.range(0, 10) } else { r.range(3, 36) };
     for _ in 0..len {
         let pick = |r: &mut Rng| -> (u64, u64) {
             if r.chance(4, 5) {
